@@ -1,6 +1,8 @@
 package hdr
 
 import (
+	"context"
+
 	"verifharness/common"
 )
 
@@ -52,7 +54,8 @@ func HistCheckFor(prop string) (HistCheck, bool) {
 		g.WClean, g.WReload = 6, 3
 		g.PruneDepths = []int{0, 0, 8, 12}
 		g.BaseLens = []int{0, 0, 1, 2, 3, 8, 20, 40}
-		hc.Rule = "locators for max in {1,2,3,10,50} checked after every op of histories with several side branches, cleans, reloads and pruned chains"
+		g.PeerReply = true
+		hc.Rule = "locators for max in {1,2,3,10,50} checked after every op of histories with several side branches, cleans, reloads and pruned chains; a simulated protocol-conformant peer (same chain / ahead / forking at a seeded height) answers the current locator and its first header is submitted back; plus a sweep over the real chain around the split height with same-chain and BCH-fork peers"
 	case "C18":
 		g.WClean, g.WSave, g.WReload = 5, 2, 3
 		g.MinOps, g.MaxOps = 6, 30
@@ -78,6 +81,9 @@ func HistCount(prop, tier string) int {
 	return n
 }
 
+// Extra lets other packages add scenarios to a history-driven check (run before Finish).
+var Extra = map[string]func(ctx context.Context, run *common.Run){}
+
 func RunHist(prop, tier string, seed int64) int {
 	hc, ok := HistCheckFor(prop)
 	if !ok {
@@ -93,6 +99,9 @@ func RunHist(prop, tier string, seed int64) int {
 		"difficulty checks disabled via the repository's own DisableDifficulty helper so that headers need no mining",
 		"panics are caught at the client boundary and counted as process death"}
 	RunHistCheck(run, hc, HistCount(prop, tier))
+	if f := Extra[prop]; f != nil {
+		f(common.QuietCtx(), run)
+	}
 	if prop == "C18" {
 		run.Extra("proofs", map[string]int64{"valid_proofs_verified": c18Obs.valid, "corrupted_proofs_tried": c18Obs.corrupt,
 			"blocks_on_best_chain": c18Obs.bestBlocks, "blocks_on_side_branches": c18Obs.sideBlocks, "blocks_in_pruned_history": c18Obs.prunedBlocks})
